@@ -45,7 +45,7 @@ type c05Case struct {
 	Serial     string `json:"serial"` // this other multi0 multi1 multi2 multiNone dupFirstGood
 	Status     string `json:"status"`
 	RespStatus int    `json:"resp_status"`
-	Extra      string `json:"extra"` // "", critical, md5hash, badrid, keyhash, wrongtype, trailing, sha256hash, nextupdate
+	Extra      string `json:"extra"`  // "", critical, md5hash, badrid, keyhash, wrongtype, trailing, sha256hash, nextupdate
 	Issuer     string `json:"issuer"` // root | inter | leafski
 }
 
@@ -114,6 +114,15 @@ func runC05(r *Run) {
 		nMut = 50000
 	}
 	e.runMutations(nMut)
+}
+
+const c05EndEntitySig = "C05 end-entity-is-issuer-candidate"
+
+func c05Sig(base, shape string) string {
+	if shape == "*end-entity" {
+		return c05EndEntitySig
+	}
+	return base + shape
 }
 
 func statusOf(s string) int {
@@ -262,7 +271,11 @@ func (e *c05Env) checkBody(id string, leaf *x509.Certificate, cands, known []*x5
 	}
 	// oracle 2: accepted ⇒ entitled signer by construction (catches an issuer-candidate set that is too wide)
 	if obs != "none" && replay != nil && !authenticByConstruction {
-		r.Violate("C05 accepted-unentitled-signer "+shape, fmt.Sprintf("%s: accepted (%s) a response whose signer is not the issuer nor authorised by it: %s", id, obs, rec), replay)
+		sig := "C05 accepted-unentitled-signer " + shape
+		if shape == "*end-entity" {
+			sig = c05EndEntitySig
+		}
+		r.Violate(sig, fmt.Sprintf("%s: accepted (%s) a response whose signer is not the issuer nor authorised by it: %s", id, obs, rec), replay)
 	}
 	return obs
 }
@@ -319,7 +332,9 @@ func (e *c05Env) runBuilt(idx int, c c05Case) {
 	path := fmt.Sprintf("/c05/%d", idx)
 	leaf, chains, issuer, deleg := e.subject(c, e.rsp.URL(path))
 	body, sg, wellFormed, hasThis, wantStatus, nu := e.build(c, leaf, issuer, deleg)
-	cands := realCands(leaf.Cert, chains, nil)
+	// direct parse: the candidates are the certificate's issuer (what the checker is meant to compute; what it does
+	// compute is exercised by the lookups over HTTP below)
+	cands := []*x509.Certificate{issuer.Cert}
 	known := e.known(leaf)
 	entitled := sg.Authentic
 	if c.Signer == "issuer+self" && c.Issuer == "inter" {
@@ -327,6 +342,12 @@ func (e *c05Env) runBuilt(idx int, c c05Case) {
 		wellFormed = false
 	}
 	shape := fmt.Sprintf("signer=%s issuer=%s", c.Signer, c.Issuer)
+	// known shape (reported as one finding): the client certificate is itself an issuer candidate because its subject key
+	// id equals its authority key id, and signs its own status
+	endEntityShape := c.Issuer == "leafski" && c.Signer == "client"
+	if endEntityShape {
+		shape = "*end-entity"
+	}
 	obs := e.checkBody("built/"+c.key(), leaf.Cert, cands, known, body, entitled, c, shape)
 	wantAccept := entitled && wellFormed && hasThis && c.RespStatus == 0
 	r.Count("signer:" + c.Signer)
@@ -351,24 +372,24 @@ func (e *c05Env) runBuilt(idx int, c c05Case) {
 	if !nu.IsZero() {
 		nuMs = e.abs.Ms(nu)
 	}
-	certField, chainField := e.abs.CertField(leaf.Cert), e.abs.ChainField(chains, nil)
-	o1 := observeLookup(e.abs, ch, e.rsp, leaf.Cert, chains, []OSrv{srv}, cands, 3600000, nuMs)
-	r.Op(fmt.Sprintf("ocsp look 1 3600000 %d %s %s %s", o1.T0, certField, chainField, srv.field(e.abs, cands)), o1.line(len(cands)))
+	certField, chainField := e.abs.CertField(leaf.Cert), e.abs.ChainsField(chains, nil)
+	o1 := observeLookup(e.abs, ch, e.rsp, leaf.Cert, chains, []OSrv{srv}, known, 3600000, nuMs)
+	r.Op(fmt.Sprintf("ocsp look 1 3600000 %d %s %s %s", o1.T0, certField, chainField, srv.field(e.abs)), o1.line())
 	e.rsp.SetFixed(path, RespScript{Kind: "drop"})
 	srv.Beh["*"] = "E"
-	o2 := observeLookup(e.abs, ch, e.rsp, leaf.Cert, chains, []OSrv{srv}, cands, 3600000, -1)
-	r.Op(fmt.Sprintf("ocsp look 1 3600000 %d %s %s %s", o2.T0, certField, chainField, srv.field(e.abs, cands)), o2.line(len(cands)))
+	o2 := observeLookup(e.abs, ch, e.rsp, leaf.Cert, chains, []OSrv{srv}, known, 3600000, -1)
+	r.Op(fmt.Sprintf("ocsp look 1 3600000 %d %s %s %s", o2.T0, certField, chainField, srv.field(e.abs)), o2.line())
 	r.Eval("http/"+c.key(), true)
 	r.Sample(map[string]interface{}{"case": c, "parse": obs, "first_call": o1.Result, "cached": o1.Stored != "-", "second_call_responder_down": o2.Result})
 	influenced := o1.Result != "error" // strict: error = treated as no answer
 	if influenced && !entitled {
-		r.Violate("C05 verdict-from-unentitled-signer "+shape, fmt.Sprintf("case %s: IsRevoked returned %s on a response signed by %s", c.key(), o1.Result, c.Signer), c)
+		r.Violate(c05Sig("C05 verdict-from-unentitled-signer ", shape), fmt.Sprintf("case %s: IsRevoked returned %s on a response signed by %s", c.key(), o1.Result, c.Signer), c)
 	}
 	if influenced && (!hasThis || c.RespStatus != 0) {
 		r.Violate("C05 verdict-from-wrong-response", fmt.Sprintf("case %s: IsRevoked returned %s on a response without a successful status for this serial", c.key(), o1.Result), c)
 	}
 	if (o1.Stored != "-" || o2.Hit || o2.Result != "error") && !(entitled && hasThis && c.RespStatus == 0) {
-		r.Violate("C05 unauthentic-response-cached "+shape, fmt.Sprintf("case %s: after the call the cache answers for this certificate (stored=%s, second call %s hit=%v)", c.key(), o1.Stored, o2.Result, o2.Hit), c)
+		r.Violate(c05Sig("C05 unauthentic-response-cached ", shape), fmt.Sprintf("case %s: after the call the cache answers for this certificate (stored=%s, second call %s hit=%v)", c.key(), o1.Stored, o2.Result, o2.Hit), c)
 	}
 	if (obs != "none") != influenced {
 		r.Violate("C05 parse-and-lookup-disagree", fmt.Sprintf("case %s: parseOcspResponse says %s, IsRevoked %s", c.key(), obs, o1.Result), c)
